@@ -42,6 +42,11 @@ def infer_type(node: ast._Node) -> Optional[Type[ast._Node]]:
     Returns:
         The inferred type or ``None`` if unable to infer.
     """
+    if isinstance(node, ast.Null):
+        # `null` is a value of every type: it tells nothing about the type of
+        # the expression it stands in, e.g. `concat(null, 'a')` is a string.
+        return None
+
     if isinstance(node, (ast._Literal)):
         return type(node)
 
